@@ -46,6 +46,9 @@ def run(facts, rep):
     d10_task_memory(facts, rep)
     d9_group_wait_epilogue(facts, rep)
     d6_vertex_lifetime(facts, rep)
+    # task_arena::execute on a full arena: the delegated functor is lost if the caller sleeps although a slot is free
+    from rules.C02 import d2_recheck_between_prepare_and_commit
+    d2_recheck_between_prepare_and_commit(facts, rep, clause='D9')
 
 
 # ---------------------------------------------------------------------------------------------------------------
